@@ -673,6 +673,12 @@ class IrToWasmCompiler:
             opcode = self.const_opcodes[tree.name]
             self.emit(opcode, tree.value)
             self.stack += 1
+        elif tree.name.replace("UND", "CONST") in self.const_opcodes:
+            # An undefined value (for example a variable which is assigned on
+            # some paths only): any value will do.
+            opcode = self.const_opcodes[tree.name.replace("UND", "CONST")]
+            self.emit(opcode, 0)
+            self.stack += 1
         elif tree.name == "LABEL":  # isinstance(tree, ir.LiteralData):
             if tree.value in self.global_labels:
                 addr = self.global_labels[tree.value]
